@@ -174,7 +174,7 @@ def impl(case):
         d = docs.definition_py(case["doc"])
         paths = []
         for i, f in enumerate(case["files"]):
-            p = _TMP / f"f{i}.bin"
+            p = _TMP / f"pass_{chr(ord('z') - i)}_{i}.bin"      # given order != sorted order
             p.write_bytes(b"".join(bytes.fromhex(x) for x in f))
             paths.append(p)
         with warnings.catch_warnings():
